@@ -236,6 +236,11 @@ def check_case(case, ctx):
                 ctx.violation('keeps-most-confident-engine', f'{K}/{kind}',
                               f'{desc}: fields of engine {src[0]} kept, engine {want} has the highest mean confidence (first on ties)')
             continue
+        tc0 = m.transcription_confidence
+        if tc0 is not None and not (0.0 <= float(tc0) <= 1.0 + 1e-9):
+            ctx.violation('records-maximum-confidence', f'{K}/recorded-confidence-not-a-probability',
+                          f'{desc}: transcription_confidence = {tc0}')
+            continue
         if defined and confs[want] > 0:
             tc = m.transcription_confidence
             if tc is None or abs(float(tc) - confs[want]) > (1e-9 if w.logits.dtype == np.float64 else 1e-5):
